@@ -23,7 +23,7 @@ pub struct Wild<'a, 'b> {
 
 impl<'a, 'b> Wild<'a, 'b> {
     pub fn new(t: &'a mut Tape<'b>, ids: &'a mut Ids) -> Self {
-        Wild { t, ids, no_empty_hex: true, max_depth: 4, callables: vec!["T".into(), "f".into(), "Num2Bits".into()] }
+        Wild { t, ids, no_empty_hex: true, max_depth: 4, callables: vec!["T".into(), "f".into(), "T".into(), "f".into(), "Num2Bits".into(), "Bits2Num".into(), "LessThan".into(), "Num2Bits_strict".into(), "Sign".into()] }
     }
 
     fn name(&mut self) -> String {
@@ -112,7 +112,7 @@ impl<'a, 'b> Wild<'a, 'b> {
             }
             9 => {
                 let name = self.callables[self.t.below(self.callables.len())].clone();
-                let n = self.t.below(3);
+                let n = self.t.below(4);
                 let args = (0..n).map(|_| self.expr(depth - 1)).collect();
                 Expr::Call { id: self.ids.next(), name, args }
             }
